@@ -9,6 +9,12 @@ import numpoly
 from . import clean
 from ..baseclass import ndpoly
 
+KERNEL_DTYPES = tuple(
+    numpy.dtype(dtype_)
+    for dtype_ in (numpy.bool_, numpy.uint32, numpy.int64, numpy.float64, numpy.complex128)
+)
+"""Coefficient types the compiled ``cset_values`` kernel can write."""
+
 
 def polynomial_from_attributes(
     exponents: numpy.typing.ArrayLike,
@@ -92,7 +98,18 @@ def polynomial_from_attributes(
     )
 
     if coefficients:
-        numpoly.cfrom_attributes(coefficients, poly.values.ravel())
+        # numpy's own cast into the polynomial's dtype, as private writable
+        # C-contiguous arrays (the kernel copies raw bytes and cannot cast).
+        dtype_ = numpy.dtype(dtype)
+        coefficients = [
+            numpy.array(coefficient, dtype=dtype_) for coefficient in coefficients
+        ]
+        if dtype_ in KERNEL_DTYPES:
+            numpoly.cfrom_attributes(coefficients, poly.values.ravel())
+        else:
+            values = poly.values
+            for key, coefficient in zip(poly.keys, coefficients):
+                values[key] = coefficient
 
     # for key, values in zip(poly.keys, coefficients):
     #    poly.values[key] = values
